@@ -1011,7 +1011,7 @@ theorem dict_core (h : Inv env f) (k t : Ty) (n : Nat) (hwk : wfb env k = true) 
   obtain ⟨hk1, hk2⟩ := zipKV_spec kbits vs kvs hklen hz
   -- every value round-trips through a fresh cell
   have hval : ∀ x ∈ vs, ∃ vb, encode env f t x Builder.empty = .ok vb ∧
-      vb.bits.length + n + 9 + Hashmap.minBitsRequired n ≤ 1023 ∧ vb.refs.length ≤ 4 ∧
+      vb.bits.length + n + 2 + Hashmap.minBitsRequired n ≤ 1023 ∧ vb.refs.length ≤ 4 ∧
       ∃ s', decode env f t { bits := vb.bits, refs := vb.refs } = .ok (x, s') := by
     intro x hx
     have hf := hvfit x hx
@@ -1104,7 +1104,7 @@ theorem enc_dictE (h : Inv env f) (k t : Ty) (v : Val) (b b' : Builder) (hw : wf
       refine ⟨_, [], hb, RTs.toRT ?_ _⟩
       intro s hs
       have := Slice.readBit_prepend s false [] []
-      simp only [decode, Slice.prepend_isLibrary, hs, Bool.false_eq_true, ↓reduceIte, this,
+      simp only [decode, decodeDictE, Slice.prepend_isLibrary, hs, Bool.false_eq_true, ↓reduceIte, this,
         bind, Outcome.bind, pure, Slice.prepend_nil, Bool.not_false]
     · rw [if_neg hemp] at he
       obtain ⟨b1, hb1, he⟩ := bind_ok_inv he
@@ -1127,7 +1127,7 @@ theorem enc_dictE (h : Inv env f) (k t : Ty) (v : Val) (b b' : Builder) (hw : wf
           have h3 : (Slice.ofCell root).isPruned = false := by
             rw [ofCell_isPruned, cellTy_eq, hty]; rfl
           simp only [Outcome.bind] at hkeys
-          simp only [decode, Slice.prepend_isLibrary, hs, Bool.false_eq_true, ↓reduceIte, h1, h2, h3, hn, hu,
+          simp only [decode, decodeDictE, Slice.prepend_isLibrary, hs, Bool.false_eq_true, ↓reduceIte, h1, h2, h3, hn, hu,
             bind, Outcome.bind, pure, Slice.prepend_nil, Bool.not_true, hkeys, hv]
 
 theorem toList_list : ∀ (l : List Val), (Val.list l).toList = l
@@ -1264,7 +1264,7 @@ theorem enc_dict (h : Inv env f) (k t : Ty) (v : Val) (b b' : Builder) (hw : wfb
             exact Hashmap.unmarshal_root_irrel _ n _ _ _ _ bits refs
               (by simpa [Slice.isPruned] using hpr) (by simpa [Slice.isLibrary] using hs) (by decide) (by decide)
           simp only [Outcome.bind] at hkeys
-          simp only [decode, Slice.prepend_isLibrary, hs, Bool.false_eq_true, ↓reduceIte, hpr', hn, hcell,
+          simp only [decode, decodeDict, Slice.prepend_isLibrary, hs, Bool.false_eq_true, ↓reduceIte, hpr', hn, hcell,
             bind, Outcome.bind, pure, hkeys, hv]
         · obtain ⟨g, hg⟩ := hng
           cases g <;> simp [greedyb] at hg
